@@ -26,6 +26,7 @@ from . import c04
 
 ID = 'C05'
 USES_INDEX = True
+USES_CHILD = True
 SOAK_EVERY = {'quick': 60, 'thorough': 100}
 BUDGET = {
     'quick': {'runs': 1500, 'wall': 300, 'chunk': 25, 'shrink': 200},
@@ -154,6 +155,8 @@ def gen_case(seed, tier='quick', index=1):
              'max_empty': rng.choice([100, 100, 1, 3]),
              'decoy': rng.random() < 0.25,
              'reenter': reenter,
+             # isolated outcomes from a process that has evaluated nothing
+             'pristine_isolated': rng.random() < 0.3,
              # how the models came to be (the statement says "a model")
              'provenance': rng.choice(['compiled'] * 6 + ['extracted'] * 2 +
                                       ['restored', 'restored+extracted'])}
@@ -368,6 +371,16 @@ def run_sched(case, fs):
             # same simulated date: text such as "8-8" is legitimately read
             # as a date of the *current* year (Excel does the same)
             key = (addr, kind, c, version[c], amb.clock.t // 86400)
+            if key not in iso and knobs.get('pristine_isolated') and \
+                    how == 'compiled':
+                from ..restorer import Child
+                resp = Child.get().twin_eval(
+                    world, inputs[c], [addr], max_empty=knobs.get(
+                        'max_empty', 100), seed=case['seed'], stale=True,
+                    evaluator_kind=kind, clock=amb.clock.t)
+                if resp.get('ok'):
+                    bump('probe:isolated_outcome_from_pristine_process')
+                    iso[key] = (resp['outcomes'][addr], None)
             if key not in iso:
                 m = make_model(inputs[c])
                 e = make_evaluator(m, kind, UserFuncs(None))
@@ -454,6 +467,8 @@ def run_sched(case, fs):
             fault = op.get('fault')
             at = None
             if fault is not None:
+                if steps is None:
+                    steps = 400
                 at = fault.get('step') or max(1, int(steps * fault['frac']))
             st = Stepper(interrupt_at=at, max_steps=SAFETY_STEPS)
             fl0 = uf.fired
@@ -513,7 +528,7 @@ def run_sched(case, fs):
                 bump('probe:same_cell_by_two_evaluators')
             if addr in world['stale']:
                 bump('probe:stale_cache_cell_evaluated')
-            if out != want:
+            if json.loads(json.dumps(out)) != want:
                 viol = {'tag': 'order-or-repetition-dependent-value',
                         'detail': {'op': seq, 'copy': c, 'evaluator': kind,
                                    'target': target, 'got': out,
